@@ -163,7 +163,7 @@ def run_implobs(m, tier, work):
     t0 = time.time()
     w = os.path.join(work, 'implobs')
     cmd = [sys.executable, os.path.join(os.path.dirname(__file__), 'implobs.py'), '--spec-dir', core.SPEC, '--work', w,
-           '--mode', 'thorough' if tier == 'thorough' else 'quick'] + (['--only', m['only']] if m.get('only') and tier != 'thorough' else [])
+           '--mode', 'thorough' if tier == 'thorough' else 'quick'] + (['--only', m['only']] if m.get('only') else [])
     p = subprocess.run(cmd, capture_output=True, text=True, errors='replace', timeout=m.get('timeout', 5400))
     out = p.stdout + p.stderr
     import shutil
